@@ -273,6 +273,39 @@ fn main() {
             use std::sync::Arc;
             use varpulis_runtime::window::*;
             let kind = a[2].as_str();
+            #[cfg(varpulis_verif)]
+            if kind == "PartitionedWindowState" || kind == "PartitionedSlidingCountWindowState" {
+                // the crate-private count-based states, through the cfg(varpulis_verif) wrappers, against one plain count window per key
+                use varpulis_runtime::engine::types_verif_hooks::{PartitionedCount, PartitionedSlidingCount};
+                let keyvals: Vec<Option<Value>> = vec![Some(Value::Int(1)), Some(Value::Int(2)), Some(Value::Str("default".into())), None];
+                let ids = |o: &Option<Vec<varpulis_runtime::event::SharedEvent>>| -> Option<Vec<i64>> { o.as_ref().map(|v| v.iter().map(|e| e.get("i").and_then(|x| x.as_int()).unwrap_or(-1)).collect()) };
+                let mut bad = Vec::new(); let mut count = 0usize;
+                for (size, slide) in [(1usize, 1usize), (2, 1), (2, 2), (3, 2)] {
+                    for sid in 0..keyvals.len().pow(7) {
+                        enum P { C(PartitionedCount), S(PartitionedSlidingCount) }
+                        enum W1 { C(CountWindow), S(SlidingCountWindow) }
+                        let sliding = kind == "PartitionedSlidingCountWindowState";
+                        let mut part = if sliding { P::S(PartitionedSlidingCount::new("k".into(), size, slide)) } else { P::C(PartitionedCount::new("k".into(), size)) };
+                        let mut plain: std::collections::HashMap<String, W1> = std::collections::HashMap::new();
+                        let mut x = sid; let mut hist = Vec::new();
+                        for i in 0..7 {
+                            let kv = &keyvals[x % keyvals.len()]; x /= keyvals.len();
+                            let mut ev = Event::new("E").with_field("i", Value::Int(i));
+                            if let Some(v) = kv { ev = ev.with_field("k", v.clone()) }
+                            let key = match kv { None => "default".to_string(), Some(Value::Int(n)) => n.to_string(), Some(Value::Str(s)) => s.to_string(), _ => unreachable!() };
+                            hist.push(key.clone());
+                            let sh = Arc::new(ev);
+                            let got = match &mut part { P::C(p) => p.add(sh.clone()), P::S(p) => p.add(sh.clone()) };
+                            let w = plain.entry(key).or_insert_with(|| if sliding { W1::S(SlidingCountWindow::new(size, slide)) } else { W1::C(CountWindow::new(size)) });
+                            let want = match w { W1::C(p) => p.add_shared(sh.clone()), W1::S(p) => p.add_shared(sh.clone()) };
+                            if ids(&got) != ids(&want) && bad.len() < 3 { bad.push(format!("{kind} size {size} slide {slide}: after keys {hist:?} the partitioned state emitted {:?}, one window per key emits {:?}", ids(&got), ids(&want))) }
+                        }
+                        count += 1;
+                    }
+                }
+                if bad.is_empty() { println!("OK partwin {kind}: {count} streams agree with one window per key") } else { println!("REPRODUCED partwin: {}", bad.join("; ")) }
+                return;
+            }
             let keyvals: Vec<Option<Value>> = vec![Some(Value::Int(1)), Some(Value::Int(2)), Some(Value::Str("default".into())), None];
             let steps = [0i64, 400, 1000, 2500];
             let mut bad = Vec::new(); let mut count = 0usize;
